@@ -15,6 +15,7 @@ from __future__ import annotations
 import asyncio
 import gc
 import itertools
+import math
 import re
 
 from . import coqterm as T
@@ -557,6 +558,7 @@ class Monitor:
         # Two different mailboxes may legitimately carry the same UIDVALIDITY
         # value (it is 16 time bits + 16 random bits), so everything is keyed
         # by (mailbox token, UIDVALIDITY); tokens follow CREATE/RENAME answers.
+        self.claims: list = []                     # (key, uids, RECENT told, connection, t)
         self.tok: dict[int, int] = {0: 0}          # name -> mailbox token
         self.ntok = 1
         self.n_checks = 0
@@ -645,6 +647,8 @@ class Monitor:
             self._uidnext(v, ob['uidnext'], t)
             if not ob['ro']:
                 self.sel[s]['claim'] = self.unclaimed.pop(v, set())
+                if self.sel[s]['claim']:
+                    self.claims.append((v, set(self.sel[s]['claim']), ob['recent'], s, t))
         elif k == 'status' and ob['k'] == 'status':
             self._uidnext(self.key(op[2], ob['v']), ob['uidnext'], t)
         elif k == 'fetch' and ob['k'] == 'fetch' and cur:
@@ -680,6 +684,16 @@ class Monitor:
                 elif len([i for i, ro in seen.items() if not ro]) > 1:
                     self.bad('recent_twice', f'op {t}: UID {u} shown \\Recent to a second '
                              f'read-write selection (connection {s})', uid=u)
+        # a read-write SELECT was told fewer RECENT than the messages that had
+        # arrived unselected and (as this dump shows) existed at that time
+        for (kv, cuids, told, cs, ct) in list(self.claims):
+            if kv == v:
+                alive = [u for u in uids if u in cuids]
+                if len(alive) > told:
+                    self.bad('first_select', f'op {t}: UIDs {alive} arrived while no read-write '
+                             f'selection existed and still exist; the first read-write SELECT '
+                             f'(connection {cs}, op {ct}) was told RECENT {told}', uid=alive[0])
+                    self.claims.remove((kv, cuids, told, cs, ct))
         # UIDNEXT of a SELECT directly followed by the dump
         if cur.get('fresh') and prev and prev[0][0] == 'select' and prev[0][1] == s:
             for u in uids:
@@ -849,8 +863,10 @@ async def _batch_async(spec) -> list[dict]:
             mirror = Mirror()
             scripts = [instantiate(lib[name], s, mirror) for s, name in enumerate(combo)]
             pre = spec.get('pre', [])
-            for order in interleavings(scripts):
-                await one(list(pre) + order, 'scripts/' + '+'.join(combo))
+            k, n = spec.get('part', (0, 1))
+            for idx, order in enumerate(interleavings(scripts)):
+                if idx % n == k:
+                    await one(list(pre) + order, 'scripts/' + '+'.join(combo))
     elif spec['kind'] == 'fixed':
         for label, ops in spec['hists']:
             await one(ops, label)
@@ -859,7 +875,7 @@ async def _batch_async(spec) -> list[dict]:
 
 def run_batch(spec) -> list[dict]:
     from .pymap_env import run
-    return run(_batch_async(spec), timeout=spec.get('timeout', 900))
+    return run(_batch_async(spec), timeout=spec.get('timeout', 3000))
 
 
 def fixed_histories():
@@ -896,6 +912,23 @@ def fixed_histories():
                             ('expunge', 1, None), ('rename', 0, 1, 2), ('noop', 1),
                             A(0, 2, (3, False, False)), ('status', 0, 2), ('create', 0, 1),
                             A(0, 1, (4, False, False)), ('status', 0, 1), ('status', 1, 2)]),
+        # the selected name disappears (RENAME by someone else): CLOSE answers NO but
+        # deselects (read-write) / OK (read-only); other commands answer NO; STATUS/APPEND
+        # by that connection get BYE
+        ('name_gone', [('create', 0, 1), A(0, 1, (1, True, False)), ('select', 1, 1, False),
+                       ('rename', 0, 1, 2), ('noop', 1), ('close', 1), ('noop', 1),
+                       ('select', 1, 2, True), ('rename', 0, 2, 3), ('fetch', 1), ('close', 1),
+                       ('noop', 1), ('select', 1, 3, False), ('select', 2, 3, False),
+                       ('rename', 0, 3, 1), ('expunge', 1, None), ('move', 1, None, 0),
+                       A(0, 1, (2, False, False)), ('status', 2, 1), ('status', 1, 0),
+                       ('noop', 1)]),
+        # C17-F4: a selection dropped by a failed SELECT must not be picked any more
+        ('ghost_selection', [('select', 1, 0, False), ('select', 0, 0, True),
+                             A(2, 0, (1, False, False)), ('fetch', 1), ('select', 1, 1, False),
+                             A(1, 0, (3, False, False)), ('select', 0, 0, False), ('fetch', 0),
+                             ('select', 2, 0, False), ('fetch', 2), ('close', 2),
+                             A(1, 0, (4, False, False)), ('close', 0), A(1, 0, (5, False, False)),
+                             ('select', 1, 0, False), ('fetch', 1)]),
         # STORE with \Recent in every mode
         ('store_recent', [A(0, 0, (1, False, False), (2, False, False)), ('select', 0, 0, False),
                           ('fetch', 0), ('store', 0, None, 'del', False, True), ('fetch', 0),
@@ -949,8 +982,8 @@ def run_check(ctx, prop: str) -> None:
     ctx.check_proofs(['UidRecent/Check'])
     rng = ctx.rng
     specs = []
-    nb = ctx.scale(10, 60)
-    per = ctx.scale(20, 60)
+    nb = ctx.scale(10, 40)
+    per = ctx.scale(20, 50)
     for _ in range(nb):
         specs.append({'kind': 'random', 'seed': rng.getrandbits(40), 'n': per, 'profile': profile})
     # the other profile too, at a quarter of the volume
@@ -958,8 +991,8 @@ def run_check(ctx, prop: str) -> None:
         specs.append({'kind': 'random', 'seed': rng.getrandbits(40), 'n': per,
                       'profile': 'uid' if full else 'recent'})
     # maildir, reduced volume
-    for _ in range(ctx.scale(3, 16)):
-        specs.append({'kind': 'random', 'seed': rng.getrandbits(40), 'n': ctx.scale(8, 30),
+    for _ in range(ctx.scale(3, 12)):
+        specs.append({'kind': 'random', 'seed': rng.getrandbits(40), 'n': ctx.scale(8, 25),
                       'profile': profile, 'maildir': True, 'maxops': 16})
     specs.append({'kind': 'fixed', 'hists': fixed_histories()})
     specs.append({'kind': 'fixed', 'hists': fixed_histories(), 'maildir': True})
@@ -967,8 +1000,11 @@ def run_check(ctx, prop: str) -> None:
     names = sorted(recent_scripts())
     pairs = [(a, b) for i, a in enumerate(names) for b in names[i:]]
     triples_pool = ['rw', 'ro', 'app', 'app2', 'rw_logout', 'ro_app']
+    nmsg = {k: sum(len(op[3]) for op in v if op[0] == 'append')
+            for k, v in recent_scripts().items()}
     triples = [(a, b, c) for i, a in enumerate(triples_pool)
-               for j, b in enumerate(triples_pool[i:], i) for c in triples_pool[j:]]
+               for j, b in enumerate(triples_pool[i:], i) for c in triples_pool[j:]
+               if nmsg[a] + nmsg[b] + nmsg[c] <= 2]
     if ctx.quick:
         pairs = rng.sample(pairs, 18 if full else 8)
         triples = rng.sample(triples, 4 if full else 2)
@@ -976,8 +1012,13 @@ def run_check(ctx, prop: str) -> None:
         triples = triples if full else rng.sample(triples, 30)
     for k in range(0, len(pairs), 4):
         specs.append({'kind': 'scripts', 'combos': pairs[k:k + 4]})
+    lib = recent_scripts()
     for t in triples:
-        specs.append({'kind': 'scripts', 'combos': [t]})
+        ls = [len(lib[x]) for x in t]
+        cnt = math.factorial(sum(ls)) // math.prod(math.factorial(x) for x in ls)
+        parts = max(1, -(-cnt // 150))
+        for k in range(parts):
+            specs.append({'kind': 'scripts', 'combos': [t], 'part': (k, parts)})
     results: list[dict] = []
     with ProcessPoolExecutor(max_workers=12) as ex:
         for res in ex.map(run_batch, specs):
